@@ -1091,3 +1091,6 @@ class C06(DecBase):
         b = bytes.fromhex(case.split()[2][1:])
         fi = frame_info(b)
         return fi is not None and len(b) >= fi[0] + fi[1]
+
+
+import props2  # noqa: E402,F401  (registers C04 C05 C07 C08 C13 C14 C20)
